@@ -60,6 +60,9 @@ typedef std::function<bool(const std::string &)> JudgeFn;
 // region name without packet prefix: "sig.hashed" -> "hashed"
 inline std::string rsuffix(const std::string &r) { size_t p = r.find('.'); return p == std::string::npos ? r : r.substr(p + 1); }
 
+// bits that the format itself defines as ignored by every receiver: bit 7 of the last octet of an X25519 public value
+inline bool format_ignored(const std::string &reg, unsigned mask) { return reg == "pkesk.x25519_last_octet" && mask == 0x80; }
+
 // the generic single-octet sweep.  sem0: semantic content of the untouched artefact.
 inline void sweep(const std::string &kind, const std::string &part, const Oct &art, const Layout &L, JudgeFn judged,
                   const std::string &sem0, AccFn acc, Rng &r, const std::string &ctxjson, Stats &st) {
@@ -77,6 +80,7 @@ inline void sweep(const std::string &kind, const std::string &part, const Oct &a
 			Acc a = acc(t);
 			st.evals++;
 			count("flip/" + kind + "/" + reg);
+			if (a.accepted && format_ignored(reg, m) && a.sem == sem0) { count("equiv_accepted/" + kind + "/" + reg + "(ignored-bit)"); continue; }
 			if (a.accepted) {
 				std::string w = J().kv("part", part).kv("region", reg).kv("offset", (long long)p).kv("xor_mask", (long long)m)
 					.kv("artefact_hex", hexs(art, 8192)).kv("accepted_content", shorten(a.sem, 600)).kv("original_content", shorten(sem0, 600)).raw("ctx", ctxjson).str();
